@@ -305,39 +305,40 @@ func c15MemberCfg(answer string) interface{} {
 
 // real ed25519 check of signatures[name][keyID] over the redacted event without signatures / unsigned
 func c15CheckedEvent(ver gmsl.RoomVersion, evJSON []byte, name string, pub ed25519.PublicKey) string {
-	obj, err := c15Decode(evJSON)
-	if err != nil {
+	// only the top level is decoded: whatever is inside content (repeated members included) stays as it is
+	var top map[string]json.RawMessage
+	if err := json.Unmarshal(evJSON, &top); err != nil {
 		return "UNPARSABLE-OUTPUT " + string(evJSON)
 	}
+	sigs := map[string]map[string]string{}
+	if raw, ok := top["signatures"]; ok {
+		if err := json.Unmarshal(raw, &sigs); err != nil || sigs == nil {
+			sigs = map[string]map[string]string{}
+		}
+	}
 	status := "<MISSING-SIGNATURE>"
-	sigs, _ := obj["signatures"].(c15Obj)
-	mine, _ := sigs[name].(c15Obj)
-	if s, ok := mine[string(c15KeyID)].(string); ok {
+	if s, ok := sigs[name][string(c15KeyID)]; ok {
 		status = "<INVALID-SIGNATURE>"
 		sig, err := base64.RawStdEncoding.DecodeString(s)
 		red, rerr := gmsl.MustGetRoomVersion(ver).RedactEventJSON(evJSON)
 		if err == nil && rerr == nil {
-			ro, _ := c15Decode(red)
-			delete(ro, "signatures")
-			delete(ro, "unsigned")
-			payload, cerr := gmsl.CanonicalJSON(c15JSON(ro))
-			if cerr == nil && ed25519.Verify(pub, payload, sig) {
-				status = "<VALID-SIGNATURE>"
+			var rt map[string]json.RawMessage
+			if json.Unmarshal(red, &rt) == nil {
+				delete(rt, "signatures")
+				delete(rt, "unsigned")
+				payload, cerr := gmsl.CanonicalJSON(c15JSON(rt))
+				if cerr == nil && ed25519.Verify(pub, payload, sig) {
+					status = "<VALID-SIGNATURE>"
+				}
 			}
 		}
-		mine[string(c15KeyID)] = status
-	} else {
-		if sigs == nil {
-			sigs = c15Obj{}
-			obj["signatures"] = sigs
-		}
-		if mine == nil {
-			mine = c15Obj{}
-			sigs[name] = mine
-		}
-		mine[string(c15KeyID)] = status
 	}
-	out, err := gmsl.CanonicalJSON(c15JSON(obj))
+	if sigs[name] == nil {
+		sigs[name] = map[string]string{}
+	}
+	sigs[name][string(c15KeyID)] = status
+	top["signatures"] = c15JSON(sigs)
+	out, err := gmsl.CanonicalJSON(c15JSON(top))
 	if err != nil {
 		return "UNCANONICAL-OUTPUT " + string(evJSON)
 	}
@@ -361,6 +362,12 @@ type c15EvScen struct {
 	MappingKey   string `json:"mapping_key"`   // pseudo-ID rooms: "" = the mapping names the sender's key | other = another key
 	Signers      string `json:"signers"`       // pseudo-ID rooms: "" = signed by the sender key | mapping | both | neither
 	KeyValidity  string `json:"key_validity"`  // validity period of the signing keys around origin_server_ts (c15Validity)
+	// repeated members: ContentFirst is put BEFORE the generated members of content (Extra comes after
+	// them); TopFirst (member name -> JSON value) is inserted in front of the top-level member of
+	// that name after the event has been built and signed, so that the last occurrence is the
+	// signed one
+	ContentFirst string            `json:"content_first"`
+	TopFirst     map[string]string `json:"top_first"`
 }
 
 const (
@@ -396,6 +403,9 @@ func c15MakeEvent(ver gmsl.RoomVersion, s c15EvScen) []byte {
 		room = c15OtherRoom
 	}
 	var parts []string
+	if s.ContentFirst != "" {
+		parts = append(parts, s.ContentFirst)
+	}
 	switch s.Membership {
 	case "-":
 	case "#":
@@ -495,7 +505,51 @@ func c15MakeEvent(ver gmsl.RoomVersion, s c15EvScen) []byte {
 		o["depth"] = json.Number("8")
 		raw, _ = gmsl.CanonicalJSON(c15JSON(o))
 	}
+	if len(s.TopFirst) > 0 {
+		keys := []string{}
+		for k := range s.TopFirst {
+			keys = append(keys, k)
+		}
+		sort.Strings(keys)
+		for _, k := range keys {
+			raw = c15InsertBeforeTopLevel(raw, k, s.TopFirst[k])
+		}
+	}
 	return raw
+}
+
+// inserts "key":value, in front of the top-level member "key" of the JSON object text (the text
+// stays sorted by key, so that the canonical-JSON check of the enforcing room versions is met)
+func c15InsertBeforeTopLevel(text []byte, key string, value string) []byte {
+	depth, inStr, esc := 0, false, false
+	want := []byte(`"` + key + `":`)
+	for i := 0; i < len(text); i++ {
+		c := text[i]
+		if inStr {
+			switch {
+			case esc:
+				esc = false
+			case c == '\\':
+				esc = true
+			case c == '"':
+				inStr = false
+			}
+			continue
+		}
+		switch c {
+		case '"':
+			if depth == 1 && bytes.HasPrefix(text[i:], want) && (text[i-1] == '{' || text[i-1] == ',') {
+				ins := append([]byte(`"`+key+`":`+value+`,`), text[i:]...)
+				return append(append([]byte{}, text[:i]...), ins...)
+			}
+			inStr = true
+		case '{', '[':
+			depth++
+		case '}', ']':
+			depth--
+		}
+	}
+	return text
 }
 
 // independent verdict of the signature check the handler is to make
@@ -1017,6 +1071,58 @@ func genC15SendJoin(c *Ctx) {
 		{"mapping unsigned", func(s *c15SJScen) { s.Ev.Mapping = "nosigs" }},
 		{"mapping signed by another server", func(s *c15SJScen) { s.Ev.Mapping = "othersigner" }},
 		{"store fails", func(s *c15SJScen) { s.Store = "err" }},
+		// members repeated in the JSON: one reading (the last occurrence, as stored) must govern
+		{"via twice: local first, foreign last", func(s *c15SJScen) {
+			s.Ev.ContentFirst = `"join_authorised_via_users_server":"@auth:local"`
+			s.Ev.Via = "@auth:elsewhere"
+		}},
+		{"via twice: foreign first, local last", func(s *c15SJScen) {
+			s.Ev.ContentFirst = `"join_authorised_via_users_server":"@auth:elsewhere"`
+			s.Ev.Via = "@auth:local"
+		}},
+		{"via twice: local first, invalid last", func(s *c15SJScen) {
+			s.Ev.ContentFirst = `"join_authorised_via_users_server":"@auth:local"`
+			s.Ev.Via = "notauserid"
+		}},
+		{"via twice: foreign first, empty last", func(s *c15SJScen) {
+			s.Ev.ContentFirst = `"join_authorised_via_users_server":"@auth:elsewhere"`
+			s.Ev.Extra = `"join_authorised_via_users_server":""`
+		}},
+		{"via twice: local first, null last", func(s *c15SJScen) {
+			s.Ev.ContentFirst = `"join_authorised_via_users_server":"@auth:local"`
+			s.Ev.Extra = `"join_authorised_via_users_server":null`
+		}},
+		{"membership twice: join first, leave last", func(s *c15SJScen) { s.Ev.ContentFirst = `"membership":"join"`; s.Ev.Membership = "leave" }},
+		{"membership twice: leave first, join last", func(s *c15SJScen) { s.Ev.ContentFirst = `"membership":"leave"` }},
+		{"membership twice: number first, join last", func(s *c15SJScen) { s.Ev.ContentFirst = `"membership":5` }},
+		{"state_key twice: other first", func(s *c15SJScen) { s.Ev.TopFirst = map[string]string{"state_key": `"@someoneelse:remote"`} }},
+		{"state_key twice: sender first, other last", func(s *c15SJScen) {
+			s.Ev.StateKey = "other"
+			s.Ev.TopFirst = map[string]string{"state_key": `"@user:remote"`}
+		}},
+		{"sender twice: other server first", func(s *c15SJScen) { s.Ev.TopFirst = map[string]string{"sender": `"@user:other"`} }},
+		{"sender twice: remote first, other server last", func(s *c15SJScen) {
+			s.Ev.SenderDomain = "other"
+			s.Ev.TopFirst = map[string]string{"sender": `"@user:remote"`, "state_key": `"@user:remote"`}
+		}},
+		{"room_id twice: other room first", func(s *c15SJScen) { s.Ev.TopFirst = map[string]string{"room_id": `"!elsewhere:remote"`} }},
+		{"room_id twice: request room first, other last", func(s *c15SJScen) {
+			s.Ev.Room = "other"
+			s.Ev.TopFirst = map[string]string{"room_id": `"!room:remote"`}
+		}},
+		{"type twice: topic first", func(s *c15SJScen) { s.Ev.TopFirst = map[string]string{"type": `"m.room.topic"`} }},
+		{"type twice: member first, topic last", func(s *c15SJScen) {
+			s.Ev.Type = "m.room.topic"
+			s.Ev.TopFirst = map[string]string{"type": `"m.room.member"`}
+		}},
+		{"content twice: leave first", func(s *c15SJScen) { s.Ev.TopFirst = map[string]string{"content": `{"membership":"leave"}`} }},
+		{"content twice: join first, leave last", func(s *c15SJScen) {
+			s.Ev.Membership = "leave"
+			s.Ev.TopFirst = map[string]string{"content": `{"membership":"join"}`}
+		}},
+		{"content twice: foreign via first", func(s *c15SJScen) {
+			s.Ev.TopFirst = map[string]string{"content": `{"join_authorised_via_users_server":"@auth:elsewhere","membership":"join"}`}
+		}},
 		{"mapping names another key", func(s *c15SJScen) { s.Ev.MappingKey = "other" }},
 		{"signed by the mapping key only", func(s *c15SJScen) { s.Ev.Signers = "mapping" }},
 		{"signed by sender and mapping key", func(s *c15SJScen) { s.Ev.Signers = "both" }},
@@ -1132,6 +1238,24 @@ func genC15Invite(c *Ctx) {
 		{"member_q invite", func(s *c15IVScen) { s.MemberQ = "invite" }},
 		{"already signed locally", func(s *c15IVScen) { s.Ev.LocalSig = true }},
 		{"with unsigned", func(s *c15IVScen) { s.Ev.Unsigned = `{"age":5,"invite_room_state":[1]}` }},
+		{"membership twice: invite first, join last", func(s *c15IVScen) { s.Ev.ContentFirst = `"membership":"invite"`; s.Ev.Membership = "join" }},
+		{"membership twice: join first, invite last", func(s *c15IVScen) { s.Ev.ContentFirst = `"membership":"join"` }},
+		{"type twice: topic first", func(s *c15IVScen) { s.Ev.TopFirst = map[string]string{"type": `"m.room.topic"`} }},
+		{"type twice: member first, topic last", func(s *c15IVScen) {
+			s.Ev.Type = "m.room.topic"
+			s.Ev.TopFirst = map[string]string{"type": `"m.room.member"`}
+		}},
+		{"room_id twice: other room first", func(s *c15IVScen) { s.Ev.TopFirst = map[string]string{"room_id": `"!elsewhere:remote"`} }},
+		{"room_id twice: request room first, other last", func(s *c15IVScen) {
+			s.Ev.Room = "other"
+			s.Ev.TopFirst = map[string]string{"room_id": `"!room:remote"`}
+		}},
+		{"sender twice: other server first", func(s *c15IVScen) { s.Ev.TopFirst = map[string]string{"sender": `"@user:other"`} }},
+		{"content twice: join first, invite last", func(s *c15IVScen) { s.Ev.TopFirst = map[string]string{"content": `{"membership":"join"}`} }},
+		{"content twice: invite first, leave last", func(s *c15IVScen) {
+			s.Ev.Membership = "leave"
+			s.Ev.TopFirst = map[string]string{"content": `{"membership":"invite"}`}
+		}},
 		{"key valid until just before the event", func(s *c15IVScen) { s.Ev.KeyValidity = "until_before" }},
 		{"key valid until the event's instant", func(s *c15IVScen) { s.Ev.KeyValidity = "until_equal" }},
 		{"key valid until just after the event", func(s *c15IVScen) { s.Ev.KeyValidity = "until_after" }},
